@@ -23,7 +23,7 @@ func init() {
 			"SERVE the handler refuses misaligned offsets, serves archive[(tso-origin)/2016] iff tso < offset (index in range by CONTIG) and otherwise the builder's result; ROTATE in one critical section the record built for the pre-increment offset is appended to the archive and written with one append-mode Write " +
 			"(a failure stops the process), for every device copy(a[:2016], a[2016:]) precedes copy(a[2016:], zeros) with exactly these bounds, for reports and impact rates, and the offset advances by 2016 exactly once; CONTIG offset == 2016*len(archive) (every writer of the offset is the rotation or the loader); " +
 			"IMMUTABLE no instruction anywhere stores through a value that may originate from the archive list (only whole-record appends write it), so a served record cannot be changed by any request (origin classes follow slice headers copied out under the lock); the statistics file is only opened in append mode. " +
-			"COVER AllDeviceStats.SigningBytes covers the number of devices and every field of every device record at full width, and the timeslot offset, and writes them exactly as Serialize does (same widths, byte order and float bit patterns: the signed bytes are the served bytes). the device-table rules of C06 are re-run (a ban removes the id from the report map the builder ranges over). SERVE also: a number parsed from the request is narrowed only when BOUND shows that it fits; BUILD also: the per-slot copy is on every path through the slot loop; ROTATE also: the archive saver hands the record it received to Serialize unchanged. NOT decided: equality of the served JSON with an independent encoder; histories as such; that rotation happens at the right time (C20).",
+			"COVER AllDeviceStats.SigningBytes covers the number of devices and every field of every device record at full width, and the timeslot offset, and writes them exactly as Serialize does (same widths, byte order and float bit patterns: the signed bytes are the served bytes). the device-table rules of C06 are re-run (a ban removes the id from the report map the builder ranges over). SERVE also: a number parsed from the request is narrowed only when BOUND shows that it fits; BUILD also: the per-slot copy is on every path through the slot loop; ROTATE also: the archive saver hands the record it received to Serialize unchanged. Every caller of the builder looks at its error result (a refused week is not served or archived as an empty record). NOT decided: equality of the served JSON with an independent encoder; histories as such; that rotation happens at the right time (C20).",
 		Assumptions: append([]string{"glow.Sign is deterministic (RFC 6979, trusted)"}, baseAssumptions...),
 		Run:         runC03,
 	})
@@ -51,6 +51,7 @@ func runC03(c *an.Ctx) {
 	c.Scope(builder)
 	buildRules(c, builder)
 	serveRules(c, builder)
+	builderRefusalHonoured(c, builder)
 	cg := contig(c, "CONTIG")
 	c.Floor("CONTIG", 2)
 	rotateRules(c, cg)
@@ -798,4 +799,65 @@ func immutableRules(c *an.Ctx) {
 			}
 		}
 	}
+}
+
+// builderRefusalHonoured: the builder refuses weeks it cannot serve (before the archive, in the future) through its
+// error result; every caller looks at that result - it reaches a nil test, a return or a panic - so a refusal is never
+// served as an (empty, unsigned) record.
+func builderRefusalHonoured(c *an.Ctx, builder *ssa.Function) {
+	p := c.P
+	n := 0
+	for _, site := range p.CallSites(builder) {
+		call, ok := site.(*ssa.Call)
+		if !ok {
+			continue
+		}
+		n++
+		res := builder.Signature.Results()
+		errIdx := res.Len() - 1
+		used := false
+		seen := map[ssa.Value]bool{}
+		var follow func(v ssa.Value)
+		follow = func(v ssa.Value) {
+			if seen[v] || v.Referrers() == nil {
+				return
+			}
+			seen[v] = true
+			for _, r := range *v.Referrers() {
+				switch x := r.(type) {
+				case *ssa.BinOp:
+					if x.Op == token.EQL || x.Op == token.NEQ {
+						used = true
+					}
+				case *ssa.Return, *ssa.Panic:
+					used = true
+				case *ssa.Phi:
+					follow(x)
+				case *ssa.Call:
+					used = true // handed on (wrapped, logged-and-returned, ...)
+				case *ssa.Store:
+					// spilled to a local: the loads of that local
+					if al, isAl := x.Addr.(*ssa.Alloc); isAl && al.Referrers() != nil {
+						for _, r2 := range *al.Referrers() {
+							if ld, isLd := r2.(*ssa.UnOp); isLd && ld.Op == token.MUL {
+								follow(ld)
+							}
+						}
+					}
+				case *ssa.MakeInterface:
+					follow(x)
+				}
+			}
+		}
+		if call.Referrers() != nil {
+			for _, r := range *call.Referrers() {
+				if ex, isEx := r.(*ssa.Extract); isEx && ex.Index == errIdx {
+					follow(ex)
+				}
+			}
+		}
+		c.Check(used, "BUILD", site.Parent(), site.Pos(), an.KeyOf(site.Parent(), "builder-error-honoured"), "the caller of the statistics builder looks at its error result (a refused week - before the archive, in the future - is not served or archived as an empty record)", "referrers of the error result")
+	}
+	c.Count("BUILD-callers", n)
+	c.Floor("BUILD-callers", 2)
 }
